@@ -96,7 +96,7 @@ REQUIRED_CLASSES = [
     "emis:constant-callable", "emis:Constant3D", "emis:unhooked",
     "grid:1", "grid:2", "grid:3", "grid:4",
 ]
-BUDGET_S = {"quick": 900, "thorough": 3000}   # caps, not expectations (quick ~40 s, thorough ~6 min on 16 idle cores)
+BUDGET_S = {"quick": 1200, "thorough": 5400}   # caps for a loaded machine, not expectations (quick ~40 s, thorough ~5 min on 16 idle cores)
 STATES_MEANING = "distinct placed polygons (lattice, vertex tuple, placement)"
 
 U_SIG = {"0": "bottom", "2^-53": "bottom", "mid": "mid", "boundary": "at-boundary", "boundary-ulp": "at-boundary", "boundary+ulp": "at-boundary",
